@@ -3,6 +3,7 @@ From Coq Require Import List ZArith Bool Arith Lia.
 Import ListNotations.
 Require Import NV.C21.Model NV.C21.Proofs NV.C21.ModelVI NV.C21.ProofsVI.
 Require Import NV.C21.Stmt NV.C21.Gen_Random NV.C21.ProofsGen.
+Require Import NV.C21.ModelZip NV.C21.ProofsZip.
 
 (* ------------------------------------------------------------------------------------------ *)
 (* Classic random-number contexts (nifty/cl/random.py)                                          *)
@@ -266,3 +267,27 @@ Example C21_vi_example :
            (cfg_of [(NlSample, 2); (NlSample, 2); (NlUpdate, 3)]) 3 (mkV 0 K0 None))) (mkO [] [] K0 None))
   = split_n (KS (tick 2 K0) 2 1) 3.
 Proof. vm_compute. auto. Qed.
+
+(* ------------------------------------------------------------------------------------------ *)
+(* concatenate_zip (nifty/re/evi.py), round 7                                                   *)
+(* ------------------------------------------------------------------------------------------ *)
+
+(* For ANY two row lists of equal length, concatenate_zip(a, b) has twice the length and row 2i is
+   a[i], row 2i+1 is b[i]: the mirrored counterpart always comes right after the original. *)
+Theorem C21_czip_interleaves : forall (A : Type) (a b : list A) (d : A) (i : nat),
+  length a = length b -> i < length a ->
+  length (czip a b) = 2 * length a /\
+  nth (2 * i) (czip a b) d = nth i a d /\ nth (2 * i + 1) (czip a b) d = nth i b d.
+Proof. exact @czip_interleaves. Qed.
+
+(* The key list handed to the non-linear update (ModelVI.zip2) IS concatenate_zip(keys, keys), and a
+   sample and its mirrored counterpart (2i, 2i+1) receive the SAME key, the i-th sample key. *)
+Theorem C21_vi_mirror_pairing : forall (ks : list key) (d : key) (i : nat),
+  czip ks ks = zip2 ks /\
+  (i < length ks -> nth (2 * i) (zip2 ks) d = nth i ks d /\ nth (2 * i + 1) (zip2 ks) d = nth i ks d).
+Proof. exact vi_mirror_pairing. Qed.
+
+(* sgn = concatenate_zip(ones, -ones): +1 for every original, -1 for every mirrored sample. *)
+Theorem C21_vi_sgn_alternates : forall n i : nat, i < n ->
+  nth (2 * i) (sgns n) 0%Z = 1%Z /\ nth (2 * i + 1) (sgns n) 0%Z = (-1)%Z.
+Proof. exact sgns_nth. Qed.
